@@ -62,4 +62,11 @@ def lt (p q : Rat) (a b : Int) : Bool := decide (val p a < val q b)
 def toCommon (p q : Rat) (a : Int) : Int := inPeriod (commonPeriod p q) (val p a)
 def abs (c : Int) : Int := (c.natAbs : Int)
 
+/-- [time.syn]: the periods of `nanoseconds … years` in seconds: `weeks` = 7 days, `years` = 146097 days / 400,
+    `months` = `years` / 12 -/
+def namedPeriods : List Rat :=
+  [1 / 1000000000, 1 / 1000000, 1 / 1000, 1, 60, 3600, 86400, 7 * 86400, (146097 * 86400 : Rat) / 400 / 12, (146097 * 86400 : Rat) / 400]
+/-- [time.syn]: "a signed integer type of at least" 64, 55, 45, 35, 29, 23, 25, 22, 20, 17 bits -/
+def namedMinBits : List Nat := [64, 55, 45, 35, 29, 23, 25, 22, 20, 17]
+
 end Tetl.C12.Spec
